@@ -35,6 +35,8 @@ plan('C16',
          Job(H, 'socket_hostorder_arrays', 'plain', quick=3000, thorough=40000, shards=(2, 8)),
          Job(H, 'socket_hostorder_arrays', 'asan', quick=1500, thorough=20000, shards=(2, 8)),
          # Socket read-back with fragmented delivery (forced short reads); the cases mostly sleep
+         Job(H, 'socket_intr', 'plain', quick=48, thorough=600, shards=(8, 16), batch=6),
+         Job(H, 'socket_intr', 'asan', quick=32, thorough=300, shards=(8, 16), batch=4),
          Job(H, 'socket_frag', 'plain', quick=2400, thorough=40000, shards=(8, 16)),
          Job(H, 'socket_frag', 'asan', quick=1200, thorough=20000, shards=(8, 16)),
      ],
